@@ -31,6 +31,10 @@ SmallParams == ParamsOver({"int", "str", "Opt_int", "absent"}, {"absent", "None"
 \* "long": a description long enough to be word-wrapped; it is concretised as a SWEEP of lengths, so that the wrap column falls on every
 \* part of the line -- the description, the words `Defaults to`, the default value itself -- in turn (single parameter, no return entry)
 LongParams == ParamsOver({"int", "str", "Opt_str"}, {"absent", "int_pos", "str_odd", "None"}, {"long"})
+\* ... and next to a second, short parameter on either side: what the parser does with an entry depends on whether it is the LAST one
+\* (the last entry is flushed through a different path than the ones before it)
+NeighbourParams == ParamsOver({"int"}, {"absent", "int_pos"}, {"plain"})
+LongSeqs == {<<p>> : p \in LongParams} \cup {<<p, q>> : p \in LongParams, q \in NeighbourParams} \cup {<<q, p>> : p \in LongParams, q \in NeighbourParams}
 RetTyps == {"int", "Opt_str", "Dotted"}
 \* (a return entry may be typed without being described: doc "absent")
 Rets == {NoRet} \cup [typ : RetTyps, def : {"absent"}, doc : {"plain"}] \cup {[typ |-> "int", def |-> "absent", doc |-> "absent"]}
@@ -47,7 +51,7 @@ VARIABLES cfg, i, pc, lines, out, fired, keep
 vars == <<cfg, i, pc, lines, out, fired, keep>>
 
 Init == /\ cfg \in {CfgSeq[k] : k \in {j \in 1..Len(CfgSeq) : j % NShards = Shard}}
-        /\ \E ps \in ParamSeqs \cup {<<p>> : p \in LongParams}, r \in Rets, d \in {"one"} :
+        /\ \E ps \in ParamSeqs \cup LongSeqs, r \in Rets, d \in {"one"} :
               /\ InDomain(cfg, ps)
               /\ ((\E k \in 1..Len(ps) : ps[k].doc = "long") => r = NoRet)
               /\ i = [doc |-> d, params |-> ps, ret |-> r]
